@@ -287,14 +287,39 @@ class NPShim:
         return abs(x)
 
 
+def _mixed_elementwise(name):
+    """np.<name> that also works on object arrays mixing symbolic scalars and plain Python/NumPy floats (NumPy's object loop
+    calls ``element.<name>()``, which floats do not have): branch-free code such as ``np.where(mask, 1.0, x)`` followed by
+    ``np.tanh`` produces exactly such arrays."""
+    import math as _m
+
+    def f(self, x, *a, **k):
+        if isinstance(x, np.ndarray) and x.dtype == object:
+            out = np.empty(x.shape, dtype=object)
+            for idx in np.ndindex(*x.shape):
+                v = x[idx]
+                out[idx] = getattr(v, name)() if hasattr(v, name) else getattr(_m, name)(float(v))
+            return out
+        if hasattr(x, name) and not isinstance(x, np.ndarray):
+            return getattr(x, name)()
+        return getattr(np, name)(x, *a, **k)
+    return f
+
+
+for _nm in ("tanh", "sinh", "cosh", "sin", "cos", "exp", "log", "sqrt"):
+    setattr(NPShim, _nm, _mixed_elementwise(_nm))
+
+
 def install(np_modules=("solvers", "transitions", "adapters", "integrators", "systems")):
-    """Install LAPACK shims into mici.matrices and np shims into the given mici modules."""
+    """Install LAPACK shims into mici.matrices and np shims into the given mici modules (mici.matrices always gets the shim:
+    everything but the few overridden scalar functions is forwarded to NumPy unchanged)."""
     import importlib
 
     M = importlib.import_module("mici.matrices")
     M.sla = sla_shim
     M.nla = nla_shim
     shim = NPShim()
+    M.np = shim
     for name in np_modules:
         mod = importlib.import_module("mici." + name)
         mod.np = shim
